@@ -108,7 +108,8 @@ def snapshot(solver):
     return dict(conds=conds, nets=[{k: v.clone() for k, v in n.state_dict().items()} for n in solver.nets],
                 best=None if solver.best_nets is None else [{k: v.clone() for k, v in n.state_dict().items()} for n in solver.best_nets],
                 hist={k: list(v) for k, v in solver.metrics_history.items()}, opt_id=id(solver.optimizer),
-                opt_state=repr(solver.optimizer.state_dict()['param_groups']), lowest=solver.lowest_loss, ge=solver.global_epoch)
+                opt_state=repr(solver.optimizer.state_dict()['param_groups']) if hasattr(solver.optimizer, 'state_dict') else repr(solver.optimizer),
+                lowest=solver.lowest_loss, ge=solver.global_epoch)
 
 
 def same_snapshot(a, b):
@@ -214,6 +215,31 @@ def stream_real(rng, n, shim):
                     if os.path.exists(path):
                         os.remove(path)
                 stats['loads'] += 1
+                # the documented way of resuming with another optimiser: class + parameters in a SolverConfig; networks, best
+                # networks, histories and the lowest loss must be restored exactly as with the default configuration
+                try:
+                    from neurodiffeq.solvers_utils import SolverConfig
+                    dill.settings['byref'] = True
+                    cur.save(path=path)
+                    cfg = SolverConfig()
+                    cfg.optimizer, cfg.optimizer_params = torch.optim.SGD, dict(lr=0.0125)
+                    with contextlib.redirect_stdout(io.StringIO()):
+                        l2 = type(cur).load(path=path, config=cfg)
+                    stats['loads_with_optimizer_config'] = stats.get('loads_with_optimizer_config', 0) + 1
+                    if l2.lowest_loss != cur.lowest_loss:
+                        bad.append(dict(ctx, violated='lowest_loss not restored when load() is given an optimiser class and parameters',
+                                        got=l2.lowest_loss, want=cur.lowest_loss))
+                    for k in ('train_loss', 'valid_loss'):
+                        if list(l2.metrics_history[k]) != list(cur.metrics_history[k]):
+                            bad.append(dict(ctx, violated=f'{k} history differs after load() with an optimiser class and parameters'))
+                    if not isinstance(l2.optimizer, torch.optim.SGD) or l2.optimizer.param_groups[0]['lr'] != 0.0125:
+                        bad.append(dict(ctx, violated='load() did not build the requested optimiser', got=str(l2.optimizer)[:100]))
+                except Exception as e:
+                    bad.append(dict(ctx, violated='load() with an optimiser class and parameters failed', error=f'{type(e).__name__}: {e}'))
+                finally:
+                    dill.settings['byref'] = False
+                    if os.path.exists(path):
+                        os.remove(path)
                 if type(loaded) is not type(cur):
                     bad.append(dict(ctx, violated='loaded solver is of a different kind', got=type(loaded).__name__))
                 for best in (False, True):
